@@ -41,7 +41,7 @@ harnesses! {
         let s_in = nd.usize_in(0, 1);
         let s_out = nd.usize_in(0, 1);
         let mut k = 0;
-        while k < 3 {
+        while k < 2 {
             let o = call1(nd, &mut r, &mut pos, s_in, s_out, &mut xin, &mut out);
             obs_checks!(o, true, "base");
             tin += o.n_in;
@@ -72,7 +72,7 @@ harnesses! {
         let s_in = nd.usize_in(0, 1);
         let s_out = nd.usize_in(0, 1);
         let mut k = 0;
-        while k < 3 {
+        while k < 2 {
             let o = call1(nd, &mut r, &mut pos, s_in, s_out, &mut xin, &mut out);
             obs_checks!(o, true, "base");
             tin += o.n_in;
@@ -103,7 +103,7 @@ harnesses! {
         let s_in = nd.usize_in(0, 1);
         let s_out = nd.usize_in(0, 1);
         let mut k = 0;
-        while k < 3 {
+        while k < 2 {
             let o = call1(nd, &mut r, &mut pos, s_in, s_out, &mut xin, &mut out);
             obs_checks!(o, true, "base");
             tin += o.n_in;
@@ -134,7 +134,7 @@ harnesses! {
         let s_in = nd.usize_in(0, 1);
         let s_out = nd.usize_in(0, 1);
         let mut k = 0;
-        while k < 3 {
+        while k < 2 {
             let o = call1(nd, &mut r, &mut pos, s_in, s_out, &mut xin, &mut out);
             obs_checks!(o, false, "base");
             tin += o.n_in;
@@ -196,7 +196,7 @@ harnesses! {
         let s_in = nd.usize_in(0, 1);
         let s_out = nd.usize_in(0, 1);
         let mut k = 0;
-        while k < 3 {
+        while k < 2 {
             let o = call1(nd, &mut r, &mut pos, s_in, s_out, &mut xin, &mut out);
             obs_checks!(o, false, "base");
             tin += o.n_in;
